@@ -322,24 +322,38 @@ def Tok.clearWhitespaces (t : Tok) : Tok :=
 def Tok.clearComments (t : Tok) : Tok :=
   { t with leading := t.leading.filter (!·.comment), trailing := t.trailing.filter (!·.comment) }
 
+/-- `current_line` / `currently_commenting` after a whole op sequence (line arithmetic only). -/
+def lineAfterAll (cur : Nat) (p : Bool) : List Op → Nat
+  | [] => cur
+  | op :: rest => lineAfterAll (op.lineAfter cur p) (op.pendingAfter p) rest
+
+def pendingAfterAll (p : Bool) : List Op → Bool
+  | [] => p
+  | op :: rest => pendingAfterAll (op.pendingAfter p) rest
+
 /-! ### C04: `shift_token_line` (`nodes/token.rs: Token::shift_token_line`) -/
 
-/-- `line_number.saturating_add_signed(amount)` (saturation at `usize::MAX` not modelled). -/
-def shiftLine (amount : Int) (n : Nat) : Nat := (Int.ofNat n + amount).toNat
+/-- `line_number.saturating_add_signed(amount)` for `amount ≥ 0` (what `append_text_comment` and
+the bundler use; saturation at `usize::MAX` not modelled). -/
+def shiftLine (amount : Nat) (n : Nat) : Nat := n + amount
 
-def Op.shift (amount : Int) : Op → Op
+def Op.shift (amount : Nat) : Op → Op
   | .token t (some n) sc => .token t (some (shiftLine amount n)) sc
   | op => op
 
-def shiftOps (amount : Int) (l : List Op) : List Op := l.map (Op.shift amount)
+def shiftOps (amount : Nat) (l : List Op) : List Op := l.map (Op.shift amount)
 
-def Tok.shift (amount : Int) (t : Tok) : Tok :=
+def Tok.shift (amount : Nat) (t : Tok) : Tok :=
   { t with line := t.line.map (shiftLine amount) }
 
 /-- `rules/append_text_comment.rs` at `start`: the comment text and a newline whitespace are
-inserted before the first token's leading trivia. -/
+inserted before the first token's leading trivia (`insert_leading_trivia(0, …)`, `(1, …)`). -/
 def startComment (text : List UInt8) : List Op := [.trivia true text, .trivia false [10]]
 
+/-- The shift `append_text_comment` applies: `text.lines().count()` of the comment text, which
+for the texts the rule builds (`--…` without newline, or `--[=*[\n…\n]=*]`, never ending in a
+newline) is the number of newlines plus one. -/
+def commentShift (text : List UInt8) : Nat := countNewLines text + 1
 
 /-! ### C03: token tilings -/
 
